@@ -27,7 +27,7 @@ SPECIES = {
 }
 LOADABLE = ('S1', 'S2', 'S3', 'S4')
 SYMBOLS = ('S1', 'S2', 'S3', 'S4', 'W')
-NUMBERINGS = ('seq', 'alt', 'wrap')
+NUMBERINGS = ('seq', 'alt', 'wrap', 'same')
 ATOMS_OF = {'A': ['A1', 'A2'], 'B': ['B1'], 'C': ['C1', 'C2'], 'D': ['D1'], 'E': ['E1'],
             'F': ['F1', 'F2', 'F3'], 'W': ['OW']}
 # candidate topologies whose residue kinds may exist in a file while their sequence does not
@@ -43,12 +43,14 @@ def top_text(name, residues):
     return itp_text(name, atoms, bonds)
 
 
-def resid_of(num, j):
-    """Residue number of the j-th residue of the file; adjacent residues always differ."""
+def resid_of(num, j, prev_rid, same_name):
+    """Residue number of the j-th residue of the file; adjacent residues differ in number or name."""
     if num == 'seq':
         return j + 1
     if num == 'alt':
         return 7 + (j % 2)
+    if num == 'same':                    # same number on adjacent residues of different names
+        return 1 if j == 0 else (prev_rid + 1 if same_name else prev_rid)
     return (99997 + j) % 100000          # wrap: ..., 99998, 99999, 0, 1, ...
 
 
@@ -56,11 +58,13 @@ def build_file(seq, num, seed):
     """Return (gro text, instances, residue stream).  instances: ground truth, file order."""
     recs, inst, stream = [], [], []
     aid, j = 0, 0
+    rid, prev_rn = 0, None
     for sym in seq:
         a0 = aid
         names, ids, pos, rids, rnames = [], [], [], [], []
         for rn, anames in SPECIES[sym]:
-            rid = resid_of(num, j)
+            rid = resid_of(num, j, rid, rn == prev_rn)
+            prev_rn = rn
             j += 1
             stream.append(rn)
             rids.append(rid)
@@ -125,8 +129,8 @@ class C11(Check):
                   'sequences longer than 4 the slice cube is evaluated for one loading order (constructor mode); '
                   'len / composition / iteration / every index are evaluated on every case.')
     assumptions = ['residue kinds pairwise disjoint between species ("distinct residue signatures")',
-                   'adjacent residues always carry different residue numbers (classes: sequential, alternating 7/8, '
-                   'wrap ...99998,99999,0,1...)',
+                   'adjacent residues differ in residue number or in residue name (classes: sequential, alternating '
+                   '7/8, wrap ...99998,99999,0,1..., same number on adjacent residues of different names)',
                    'coordinates: a deterministic table, unique per atom, shifted by VERIF_SEED']
 
     # ------------------------------------------------------------------
@@ -134,13 +138,13 @@ class C11(Check):
         lmax = 6 if tier == 'thorough' else 4
         m = 128 if tier == 'thorough' else 48
         sl = 4 if tier == 'thorough' else 3      # slice cube on every (sequence, order, mode) up to this length
-        nl = 4 if tier == 'thorough' else 3      # numbering classes alt / wrap up to this length
+        nl = 4 if tier == 'thorough' else 3      # numbering classes alt, wrap, same up to this length
         self.bounds = {'sequence_len_max': lmax, 'species': 4, 'solvent': 'W (never loaded)',
                        'numberings': list(NUMBERINGS), 'loading_orders': 'all permutations',
                        'modes': ['ctor', 'add'], 'slice_values': '{None,-2,-1,0,1,2,n}^3, step != 0',
                        'slice_cube_all_orders_up_to_len': sl,
                        'slice_cube_one_order_beyond': True,
-                       'numbering_alt_wrap_up_to_len': nl,
+                       'numbering_alt_wrap_same_up_to_len': nl,
                        'refused_topologies': 'numbering seq only; absent species, absent kind sequence, '
                                              'different atom names; before and after loading the real species'}
         return [{'lmax': lmax, 'mod': m, 'r': r, 'sl': sl, 'nl': nl} for r in range(m)]
@@ -329,6 +333,14 @@ class C11(Check):
         except Exception as exc:
             R.case(cdesc, nontrivial=False, outcome='load failed', cls=f"ghost/{g['kind']}/{g['where']}")
             R.violation('load/exception', cdesc, f'{type(exc).__name__}: {exc}')
+            return
+        try:
+            pre = self._oracle(syst, inst, set(loaded), False)[0]
+        except Exception as exc:
+            pre = 'exception'
+        if pre:      # the system is already wrong before the refusal: reported by the loading cases
+            R.case(cdesc, nontrivial=False, outcome='system wrong before the refused topology',
+                   cls=f"ghost/{g['kind']}/{g['where']}")
             return
         try:
             syst.add_ftop(MemFile(gtext, 'ghost.itp'))
